@@ -626,8 +626,8 @@ def blame(ops, seq, pres):
                     return 'model-mismatch fn=%s recv=%s' % (BY_NAME[sub[0][0]].fn, p)
                 if yields_python_lists(sub[0], inputs[a]):
                     return 'python-list-elements producer=%s' % BY_NAME[sub[0][0]].fn
-                return 'pipeline-mismatch ops=%s recv=%s' % ('|'.join(BY_NAME[n].fn for n, _ in sub), p)
-    return 'pipeline-mismatch ops=%s recv=%s' % ('|'.join(BY_NAME[n].fn for n, _ in ops), pres)
+                return 'pipeline-mismatch ops=%s' % '|'.join(BY_NAME[n].fn for n, _ in sub)
+    return 'pipeline-mismatch ops=%s' % '|'.join(BY_NAME[n].fn for n, _ in ops)
 
 
 def run_pipe(res, ops, seq, pres):
